@@ -71,7 +71,11 @@ func queryHash(q string) string {
 }
 
 func runSolver(sd solverDef, file string, timeoutS int) (string, string, float64) {
-	ctx, cancel := context.WithTimeout(context.Background(), time.Duration(timeoutS+3)*time.Second)
+	return runSolverCtx(context.Background(), sd, file, timeoutS)
+}
+
+func runSolverCtx(parent context.Context, sd solverDef, file string, timeoutS int) (string, string, float64) {
+	ctx, cancel := context.WithTimeout(parent, time.Duration(timeoutS+3)*time.Second)
 	defer cancel()
 	args := sd.cmd(file, timeoutS)
 	cmd := exec.CommandContext(ctx, args[0], args[1:]...)
@@ -172,24 +176,38 @@ func solveOne(o *Obligation, cfg SolveCfg, w int) {
 			cfg.TimeoutS = 5
 		}
 	}
-	total := 0.0
+	// stage B: race the back ends on the full query; the first definite answer wins
+	type ans struct {
+		res, out, name string
+		el            float64
+	}
+	ctx, cancel := context.WithCancel(context.Background())
+	defer cancel()
+	ch := make(chan ans, len(seq))
 	for _, si := range seq {
-		sd := solvers[si]
-		res, out, el := runSolver(sd, file, cfg.TimeoutS)
-		total += el
-		o.Output = out
-		if res == "sat" || res == "unsat" {
-			o.Result, o.Solver, o.Time = res, sd.name, total
+		go func(sd solverDef) {
+			res, out, el := runSolverCtx(ctx, sd, file, cfg.TimeoutS)
+			ch <- ans{res, out, sd.name, el}
+		}(solvers[si])
+	}
+	o.Result = "unknown"
+	for range seq {
+		a := <-ch
+		if a.el > o.Time {
+			o.Time = a.el
+		}
+		if a.res == "sat" || a.res == "unsat" {
+			o.Result, o.Solver, o.Time, o.Output = a.res, a.name, a.el, a.out
+			cancel()
 			if cfg.CacheDir != "" {
-				os.WriteFile(filepath.Join(cfg.CacheDir, h), []byte(res+" "+sd.name+"\n"), 0o644)
+				os.WriteFile(filepath.Join(cfg.CacheDir, h), []byte(a.res+" "+a.name+"\n"), 0o644)
 			}
 			return
 		}
-		o.Result, o.Solver = res, sd.name
-	}
-	o.Time = total
-	if o.Result == "timeout" || o.Result == "error" {
-		o.Result = "unknown"
+		if a.res == "error" && o.Output == "" {
+			o.Output = a.out
+		}
+		o.Solver = a.name
 	}
 }
 
